@@ -43,18 +43,57 @@ def rule_crc(ctx) -> None:
     chk.decide(ok, "C02.crc-window", sg.qual + " store", "the result is written into the sub-image that holds offset K, at K", norm(wr[0]) if wr else "", "", A.loc(MIX, sg.node))
     # BCA variant
     sb = ctx.own(MIX, "Mbi_ExportMixinCrcSignBca", "sign")
-    consts = {norm(n.targets[0]): prog.fold(n.value, sb.module) for n in A.walk_no_nested(sb.node) if isinstance(n, ast.Assign) and norm(n.targets[0]).startswith("IMG_CRC_")}
-    chk.decide(consts == {"IMG_CRC_START_ADDRESS": 4, "IMG_CRC_BYTE_COUNT": 8, "IMG_CRC_EXPECTED_VALUE": 12}, "C02.crc-window", sb.qual + " fields", "BCA CRC fields: start @4, byte count @8, expected value @12", f"{consts}", "", A.loc(MIX, sb.node))
-    wins = {}
-    for n in A.walk_no_nested(sb.node):
-        if isinstance(n, ast.Assign) and isinstance(n.targets[0], ast.Subscript) and isinstance(n.targets[0].slice, ast.Slice):
-            sl = n.targets[0].slice
-            if norm(sl.upper) == norm(sl.lower) + " + 4":
-                wins[norm(sl.lower)] = norm(A.inline_locals(sb.node, n.value, keep=["crc"]))
-    want = {"IMG_CRC_EXPECTED_VALUE": "struct.pack('<I', crc)", "IMG_CRC_START_ADDRESS": "struct.pack('<I', self.IMG_DATA_START)", "IMG_CRC_BYTE_COUNT": "struct.pack('<I', len(image.export()[self.IMG_DATA_START:]))"}
-    chk.decide(wins == want, "C02.crc-window", sb.qual, "start, count and CRC describe exactly the hashed range image[IMG_DATA_START:]", f"{wins}", f"{want}", A.loc(MIX, sb.node))
-    c = [x for x in A.calls_in(sb.node, "calculate")]
-    chk.decide(bool(c) and norm(A.inline_locals(sb.node, c[0].args[0])) == "image.export()[self.IMG_DATA_START:]", "C02.crc-window", sb.qual + " range", "CRC over image[IMG_DATA_START:]", norm(c[0]) if c else "", "", A.loc(MIX, sb.node))
+    # sign evaluated on a model image: the BCA sub-image gets CRC-32/MPEG-2 of image[IMG_DATA_START:] at 12, the start IMG_DATA_START
+    # at 4 and the byte count at 8 (little-endian words), nothing else changes; revert returns the image untouched
+    import struct as _struct
+    import zlib as _zlib
+    from ..engines import ordereval as _oe
+    Obj = _oe.Obj
+    # (the export mixin only declares IMG_DATA_START; the value comes from the mixin that defines the vx image layout)
+    starts = {prog.fold(n.value, sb.module) for k in ast.walk(sb.module.tree) if isinstance(k, ast.ClassDef) for n in k.body
+              if isinstance(n, (ast.Assign, ast.AnnAssign)) and n.value is not None and norm(n.targets[0] if isinstance(n, ast.Assign) else n.target) == "IMG_DATA_START"}
+    if len(starts) != 1 or not isinstance(next(iter(starts)), int):
+        raise AnalysisError(f"C02.crc-window: IMG_DATA_START is not defined once in the module ({starts})")
+    START = next(iter(starts))
+    probs = []
+    for L in (START + 1, START + 64, START + 333):
+        RAW = bytes((i * 11 + 5) & 0xFF for i in range(L))
+        BCA0 = bytes(range(0x80, 0x80 + 64))
+        bca = Obj(_sub=True, binary=BCA0)
+        image = Obj(_img=True, _bca=bca)
+
+        def cv(c: ast.Call, ev, RAW=RAW, bca=bca):
+            f = norm(c.func)
+            if f == "image.export" and not c.args:
+                return RAW
+            if f == "image.find_sub_image" and len(c.args) == 1:
+                return bca if ev.ev(c.args[0]) == "Boot Config Area" else None
+            if f in ("struct.pack", "pack") and c.args:
+                return _struct.pack(ev.ev(c.args[0]), *[ev.ev(a) for a in c.args[1:]])
+            if f == "from_crc_algorithm" and len(c.args) == 1:
+                return Obj(_crc=norm(c.args[0]))
+            if isinstance(c.func, ast.Attribute) and c.func.attr == "calculate" and len(c.args) == 1:
+                o = ev.ev(c.func.value)
+                if isinstance(o, Obj) and "_crc" in o.__dict__:
+                    return _zlib.crc32(o.__dict__["_crc"].encode() + b"|" + bytes(ev.ev(c.args[0])))
+            return _oe.NOT_MODELLED
+        try:
+            out = _oe.Evaluator({"self": Obj(IMG_DATA_START=START), "image": image, "revert": False}, ctx.fold_sym(sb), opaque_return=False, call_value=cv).run(A.body_of(sb.node))
+        except _oe.Unsupported as ex:
+            raise AnalysisError(f"C02.crc-window: Mbi_ExportMixinCrcSignBca.sign left the fragment: {ex}")
+        crc = _zlib.crc32(b"CrcAlg.CRC32_MPEG|" + RAW[START:])
+        want_b = bytearray(BCA0)
+        want_b[12:16] = _struct.pack("<I", crc)
+        want_b[4:8] = _struct.pack("<I", START)
+        want_b[8:12] = _struct.pack("<I", L - START)
+        got_b = bytes(bca.__dict__["binary"]) if isinstance(bca.__dict__["binary"], (bytes, bytearray)) else None
+        if out.kind != "return" or got_b != bytes(want_b):
+            diff = [i for i in range(min(len(got_b or b""), 64)) if (got_b or b"")[i] != want_b[i]]
+            probs.append(f"image of {L} bytes: {out.kind}; BCA bytes differ at {diff[:12]} (length {len(got_b) if got_b is not None else None})")
+    out_r = _oe.Evaluator({"self": Obj(IMG_DATA_START=START), "image": Obj(_img=True, _marker=1), "revert": True}, ctx.fold_sym(sb), opaque_return=False).run(A.body_of(sb.node))
+    if not (out_r.kind == "return" and isinstance(out_r.value, Obj) and "_marker" in out_r.value.__dict__):
+        probs.append("revert does not hand the image back untouched")
+    chk.decide(not probs, "C02.crc-window", sb.qual, f"start (@4), byte count (@8) and CRC-32/MPEG-2 (@12) describe exactly the hashed range image[IMG_DATA_START={START}:] (3 models)", "; ".join(probs[:2]), "", A.loc(MIX, sb.node))
     # manifest CRC
     cd = ctx.own(MIX, "Mbi_ExportMixinAppCertBlockManifest", "collect_data")
     t = norm(cd.node)
